@@ -16,7 +16,8 @@ Operation vocabulary (JSON lists; h = handle name, p = project index):
   ["move", h, p] ["clone", h, p, h2]
   ["ucache", p] ["rmcache", p] ["session", p]
   ["copy", h, h2] ["deepcopy", h, h2] ["pickle", h, h2] ["pickleproc", h, h2] ["drop", h]
-  ["plant", p, dirname]         create a foreign directory in the workspace (not via signac)
+  ["plant", p, name[, kind]]    create a foreign entry in the workspace (not via signac): a directory (default),
+                                a regular "file" or a dangling symbolic "link" - the latter two possibly named like an id
 """
 import copy
 import hashlib
@@ -198,7 +199,16 @@ class RealWorld:
         elif k == "drop":
             H.pop(op[1], None)
         elif k == "plant":
-            os.makedirs(os.path.join(self.paths[op[1]], "workspace", op[2]), exist_ok=True)
+            target = os.path.join(self.paths[op[1]], "workspace", op[2])
+            kind = op[3] if len(op) > 3 else "dir"
+            os.makedirs(os.path.dirname(target), exist_ok=True)
+            if kind == "dir":
+                os.makedirs(target, exist_ok=True)
+            elif kind == "file" and not os.path.lexists(target):
+                with open(target, "w") as f:
+                    f.write("not a job\n")
+            elif kind == "link" and not os.path.lexists(target):
+                os.symlink(os.path.join(self.paths[op[1]], "nowhere", op[2]), target)  # dangling
         else:
             raise ValueError("unknown op %r" % (op,))
 
@@ -278,7 +288,7 @@ def observe_project(signac, path):
         entry = {"sp": tagged(sp) if sp is not None else None, "doc": tagged(doc or {}), "files": files,
                  "raw": {"sp": sp, "doc": doc or {}, "files": files}}
         is_id = len(name) == 32 and all(c in "0123456789abcdef" for c in name)
-        if is_id:
+        if is_id and os.path.isdir(wd):   # only id-named DIRECTORIES are jobs (a file or a dangling link is not)
             o["jobs"][name] = entry
         else:
             o["foreign"].append(name)
@@ -661,7 +671,10 @@ def gen_ops(rng, length, nproj=2, rich=False, weights=None, allow_plant=False):
             handles.remove(h)
             ops.append(["drop", h])
         elif k == "plant":
-            ops.append(["plant", rng.randrange(nproj), rng.choice(FOREIGN)])
+            if rng.random() < 0.5:
+                ops.append(["plant", rng.randrange(nproj), rng.choice(FOREIGN)])
+            else:  # an entry named exactly like an id that is not a directory
+                ops.append(["plant", rng.randrange(nproj)] + rng.choice([["0" * 32, "file"], ["1" * 32, "link"], ["ab" * 16, "file"]]))
     return ops
 
 
